@@ -40,6 +40,16 @@ Theorem C16_formatted_nf : forall subn n, wsl n = true ->
   implied (own_flags subn n) (nf_flags (fst (repl subn true n))) = true.
 Proof. exact repl_fmt_nf. Qed.
 Print Assumptions C16_formatted_nf.
+(* the hypothesis [wsl] cannot be dropped: append_plain_text replaces a text:s by its count of spaces and drops what it
+   contains, so a text:s carrying character data (never produced by odfdo or a conforming producer) loses it *)
+Theorem C16_formatted_needs_leaf_spacers : exists subn n,
+  readable_ev (content (fst (repl subn true n))) <> readable_ev (replace_ev subn (content n)).
+Proof.
+  exists (fun s => match s with [Ch 0] => ([Ch 9], 1) | _ => (s, 0) end),
+         (Node KP 1 false (Some [Ch 0]) [Node (KS 1) 0 false (Some [Ch 5]) [] (Some [Ch 1])] None).
+  vm_compute. discriminate.
+Qed.
+Print Assumptions C16_formatted_needs_leaf_spacers.
 Example C16_formatted_example :   (* <p><span>xx</span> abc def</p>, "abc" -> "A<tab>B  C": the F27 witness on the repaired algorithm *)
   let subn := fun s : str => match s with [Sp; Ch 0; Ch 1; Ch 2; Sp; Ch 3] => ([Sp; Ch 7; Tb; Ch 8; Sp; Sp; Ch 9; Sp; Ch 3], 1) | _ => (s, 0) end in
   let n := Node KP 1 false None [Node KSpan 2 false (Some [Ch 5; Ch 5]) [] (Some [Sp; Ch 0; Ch 1; Ch 2; Sp; Ch 3])] None in
